@@ -129,13 +129,23 @@ class Rewriter:
         self.log = []
         self.dropped = []
 
-    def sub(self, rule, pattern, repl, count=None, min_count=1, flags=0):
-        """count=None: at least min_count hits; else exactly count hits."""
+    STRICT = False      # True restores the original behaviour: any hit-count deviation aborts the extraction
+
+    def sub(self, rule, pattern, repl, count=None, min_count=1, flags=0, strict=None):
+        """count=None: at least min_count hits expected; else exactly count hits expected.
+        The expected counts are those of the unchanged tree. A pure rewrite is meaning-preserving however
+        often it fires, so on a CHANGED tree a deviating count is recorded in the extraction report
+        ('deviation') and extraction continues: a deleted or duplicated statement must lead to a contract
+        verdict (VIOLATION or pass), not to UNDECIDED. If the deviation means the text can no longer be
+        adapted, the C unit fails to compile, which is still reported as UNDECIDED."""
         hits = [m.group(0) for m in re.finditer(pattern, self.text, flags)]
         n = len(hits)
         if (count is not None and n != count) or (count is None and n < min_count):
-            raise ExtractionError("%s: rewrite rule '%s' /%s/ fired %d times, expected %s"
-                                  % (self.name, rule, pattern, n, count if count is not None else ">=%d" % min_count))
+            if strict or (strict is None and self.STRICT):
+                raise ExtractionError("%s: rewrite rule '%s' /%s/ fired %d times, expected %s"
+                                      % (self.name, rule, pattern, n, count if count is not None else ">=%d" % min_count))
+            self.log.append(dict(rule=rule, pattern=pattern, deviation="fired %d times, expected %s (tree differs from the pinned one)"
+                                 % (n, count if count is not None else ">=%d" % min_count), hits=n, examples=hits[:3]))
         new = re.sub(pattern, repl, self.text, flags=flags)
         self.log.append(dict(rule=rule, pattern=pattern, replacement=repl if isinstance(repl, str) else "<fn>", hits=n,
                              examples=hits[:3]))
@@ -147,7 +157,7 @@ class Rewriter:
 
     def drop(self, rule, pattern, repl="", count=1, flags=0):
         hits = [m.group(0) for m in re.finditer(pattern, self.text, flags)]
-        if len(hits) != count:
+        if len(hits) > count:       # dropping MORE than foreseen could hide behaviour: stay strict; dropping less (text absent) is harmless
             raise ExtractionError("%s: drop rule '%s' /%s/ fired %d times, expected %d" % (self.name, rule, pattern, len(hits), count))
         self.dropped += [dict(rule=rule, text=h) for h in hits]
         self.text = re.sub(pattern, repl, self.text, flags=flags)
